@@ -68,8 +68,8 @@ func newSutB(u *universe, ab, ba string, old, cur, nw, spare, sectors int) *sutB
 		Records: 61, MaxGet: 8, MaxPut: 16, HashInit: 0xc11, Index: "mem"}
 	s := &sutB{u: u, ab: ab, ba: ba, st: map[string]*stx.Store{"A": stx.NewStore(cfg), "B": stx.NewStore(cfg)}}
 	a, b := guard{s.st["A"].BA, s, "A"}, guard{s.st["B"].BA, s, "B"}
-	existenceCacheDuration = -time.Second
-	defer func() { existenceCacheDuration = time.Minute }()
+	existenceCacheDuration, replicaKeyFormat = -time.Second, digest.KeyWithoutInstance
+	defer func() { existenceCacheDuration, replicaKeyFormat = time.Minute, digest.KeyWithInstance }()
 	s.ba11 = mirrored.NewMirroredBlobAccess(a, b, mkReplicator(ab, a, b), mkReplicator(ba, b, a))
 	return s
 }
